@@ -27,6 +27,7 @@ type Engine struct {
 	declPkg   map[*types.Func]*packages.Package
 	used      map[string]map[string]*FuncContract
 	overlay   map[string][]byte
+	mutCache  map[*packages.Package]map[*types.Var]bool
 }
 
 func NewEngine(repo string) *Engine {
@@ -105,6 +106,59 @@ func (E *Engine) pkgByDir(dir string) *packages.Package {
 		}
 	}
 	return nil
+}
+
+// mutableFields returns the struct fields that are assigned somewhere in the package's functions
+// (everything else is written only by composite literals, i.e. immutable after construction).
+func (E *Engine) mutableFields(p *packages.Package) map[*types.Var]bool {
+	if m, ok := E.mutCache[p]; ok {
+		return m
+	}
+	m := map[*types.Var]bool{}
+	var mark func(e ast.Expr)
+	mark = func(e ast.Expr) {
+		switch e := ast.Unparen(e).(type) {
+		case *ast.SelectorExpr:
+			if sel, ok := p.TypesInfo.Selections[e]; ok {
+				if v, ok := sel.Obj().(*types.Var); ok && v.IsField() {
+					m[v] = true
+				}
+			}
+			mark(e.X)
+		case *ast.IndexExpr:
+			mark(e.X)
+		case *ast.StarExpr:
+			mark(e.X)
+		case *ast.SliceExpr:
+			mark(e.X)
+		}
+	}
+	for _, file := range p.Syntax {
+		ast.Inspect(file, func(n ast.Node) bool {
+			switch n := n.(type) {
+			case *ast.AssignStmt:
+				for _, l := range n.Lhs {
+					mark(l)
+				}
+			case *ast.IncDecStmt:
+				mark(n.X)
+			case *ast.CallExpr:
+				if id, ok := n.Fun.(*ast.Ident); ok && (id.Name == "delete" || id.Name == "clear" || id.Name == "copy") && len(n.Args) > 0 {
+					mark(n.Args[0])
+				}
+			case *ast.UnaryExpr:
+				if n.Op.String() == "&" {
+					mark(n.X) // address taken: may be written through the pointer
+				}
+			}
+			return true
+		})
+	}
+	if E.mutCache == nil {
+		E.mutCache = map[*packages.Package]map[*types.Var]bool{}
+	}
+	E.mutCache[p] = m
+	return m
 }
 
 func (E *Engine) declOf(fn *types.Func) *ast.FuncDecl { return E.decls[fn] }
@@ -186,7 +240,7 @@ func (E *Engine) VerifyFunc(p *packages.Package, pc *PkgContracts, c *FuncContra
 	f := &FuncCtx{E: E, Pkg: p, Decl: decl, C: c, PC: pc, S: NewSorts(modulePath), key: p.Types.Name() + "." + c.Key,
 		callOrd: map[string]int{}, safeOrd: map[string]int{}, trackCall: map[string]bool{}, notes: map[string]bool{},
 		heap0: map[string]string{}, heapSort: map[string][2]string{}, globals: map[types.Object]Val{}, pures: map[string]bool{},
-		specDone: map[string]bool{}, specBusy: map[string]bool{}}
+		specDone: map[string]bool{}, specBusy: map[string]bool{}, axiomsDone: map[string]bool{}}
 	if strings.Contains(p.PkgPath, "/") {
 		// disambiguate same-named packages (core/qbft vs core/consensus/qbft)
 		rel := strings.TrimPrefix(p.PkgPath, modulePath+"/")
@@ -298,6 +352,18 @@ func (E *Engine) VerifyFunc(p *packages.Package, pc *PkgContracts, c *FuncContra
 	for _, cl := range c.Requires {
 		f.assume(env, f.evalClause(cl, env, scEntry))
 	}
+	f.relock = func(e *Env) {
+		sc := *scEntry
+		sc.old = e
+		for _, cl := range invs {
+			sc2 := sc
+			sc2.bound = []map[string]Val{selfBound}
+			f.assume(e, f.evalClause(cl, e, &sc2))
+		}
+		for _, cl := range c.Requires {
+			f.assume(e, f.evalClause(cl, e, &sc))
+		}
+	}
 	f.entry = env.clone()
 	scEntry.old = f.entry
 	f.obligeSat("pre-cover", "pre-cover", env, "true", "requires (and type invariants) must be satisfiable")
@@ -374,11 +440,15 @@ func (E *Engine) VerifyFunc(p *packages.Package, pc *PkgContracts, c *FuncContra
 }
 
 func (f *FuncCtx) emitAxioms(pc *PkgContracts, env *Env) {
+	f.emitAxiomsOf(pc, nil, env)
+}
+
+func (f *FuncCtx) emitAxiomsOf(pc *PkgContracts, pkg *types.Package, env *Env) {
 	if pc == nil {
 		return
 	}
 	for i, ax := range pc.Axioms {
-		sc := &specCtx{nolocals: true, pcs: pc}
+		sc := &specCtx{nolocals: true, pcs: pc, pkg: pkg}
 		t := f.evalClause(ax, env, sc)
 		f.emit(fmt.Sprintf("(assert %s) ; axiom %s", t, pc.AxiomNames[i]))
 		f.note("axiom assumed: " + pc.AxiomNames[i] + ": " + ax.Text)
@@ -457,7 +527,7 @@ func (E *Engine) VerifyLemmas(p *packages.Package, pc *PkgContracts, prop string
 		f := &FuncCtx{E: E, Pkg: p, C: c, PC: pc, S: NewSorts(modulePath), key: rel + ".lemma",
 			callOrd: map[string]int{}, safeOrd: map[string]int{}, trackCall: map[string]bool{}, notes: map[string]bool{},
 			heap0: map[string]string{}, heapSort: map[string][2]string{}, globals: map[types.Object]Val{}, pures: map[string]bool{},
-			specDone: map[string]bool{}, specBusy: map[string]bool{}}
+			specDone: map[string]bool{}, specBusy: map[string]bool{}, axiomsDone: map[string]bool{}}
 		env := &Env{vars: map[types.Object]Val{}, names: map[string]Val{}, heap: map[string]string{}, pc: "true"}
 		f.emitAxioms(pc, env)
 		sc := &specCtx{nolocals: true, pcs: pc}
